@@ -509,6 +509,10 @@ def scene_recipes(tier, seed, scale):
         ("map", ["--clock", "strict", "--coalescent", "constant"], 6, 2),
         ("advi", ["--clock", "strict", "--coalescent", "constant"], 6, 2),
         ("advi", ["-m", "HKY"], 6, 3),
+        ("advi", ["-q", "realnvp"], 6, 2),
+        ("advi", ["-q", "fullrank"], 6, 3),
+        ("advi", ["--K_grad_samples", "3"], 6, 2),
+        ("advi", ["--divergence", "KLpq"], 6, 3),
     ]
     for sub, args, it, fr in clis:
         out.append({"kind": "cli", "sub": sub, "args": args, "iterations": it, "freq": fr, "convergence": sub == "advi"})
